@@ -161,8 +161,11 @@ def stages_for(prop, tier):
 def _stages_for(prop, tier):
     import os
     harness = os.path.join(os.path.dirname(os.path.dirname(os.path.abspath(__file__))), "harness")
-    nounicode = {"name": "no-unicode", "kind": "native", "profile": "checked", "features": "", "target_dir": os.path.join(harness, "target-nounicode"),
+    nounicode = {"name": "no-unicode", "kind": "native", "profile": "checked", "features": "bytes", "target_dir": os.path.join(harness, "target-nounicode"),
                  "budget_s": 240, "watchdog_s": 900}
+    # similar built WITHOUT its `bytes` feature: the str tokenizers have fallback code paths of their own there
+    nobytes = {"name": "no-bytes", "kind": "native", "profile": "checked", "features": "unicode", "target_dir": os.path.join(harness, "target-nobytes"),
+               "budget_s": 240, "watchdog_s": 900}
     if tier == "quick":
         st = [{"name": "checked", "kind": "native", "profile": "checked", "tier": "quick", "budget_s": 240, "watchdog_s": 900},
               # release profile: no debug_assert!, wrapping arithmetic — observable behaviour can differ
@@ -174,6 +177,8 @@ def _stages_for(prop, tier):
         if prop == "C16":
             # the inline second-level diff tokenizes differently without the `unicode` feature
             st.append(dict(nounicode, tier="quick"))
+        if prop == "C06":
+            st.append(dict(nobytes, tier="quick"))
         return st
     st = [
         {"name": "checked", "kind": "native", "profile": "checked", "tier": "thorough", "budget_s": 1500, "watchdog_s": 3600},
@@ -185,6 +190,8 @@ def _stages_for(prop, tier):
             st.append({"name": "process%d" % i, "kind": "native", "profile": "checked", "tier": "thorough", "budget_s": 1500, "watchdog_s": 3600, "same_digest_as": "checked"})
     if prop == "C16":
         st.append(dict(nounicode, tier="thorough"))
+    if prop == "C06":
+        st.append(dict(nobytes, tier="thorough"))
     if prop in MIRI:
         st.append({"name": "miri", "kind": "miri", "budget_s": 900, "watchdog_s": 1800})
     if prop in COVERAGE:
